@@ -182,11 +182,21 @@ func genC09(o *lib.Opts) {
 	if o.N > 0 {
 		scale = o.N
 	}
+	div := 1
+	if modeSuffix == "~" { // real pool + co-tenant: a sample in the quick tier, a fifth of the volume in thorough
+		div = 8
+		if o.Tier == "thorough" {
+			scale, div = 6, 1
+		}
+	}
 	// 1. bounded-exhaustive reader histories over a boundary alphabet (retain, grow, release)
 	alpha := []string{"n1", "n4096", "p5000", "n9000", "r", "p1", "b4097"}
 	maxLen := 3
 	if o.Tier == "thorough" {
 		maxLen = 4
+	}
+	if modeSuffix == "~" {
+		maxLen = 2
 	}
 	var rec func(cur []string)
 	rec = func(cur []string) {
@@ -208,7 +218,7 @@ func genC09(o *lib.Opts) {
 	}
 	rec(nil)
 	// 2. random reader histories
-	for i := 0; i < 700*scale; i++ {
+	for i := 0; i < 700*scale/div; i++ {
 		n := r.Pick(0, 3, 50, 4000, 4096, 4100, 8192, 9000, 20000, 70000)
 		if r.Chance(1, 4) {
 			n = r.Range(0, 12000)
@@ -217,7 +227,7 @@ func genC09(o *lib.Opts) {
 		emit("rd", kind, genStream(r, n), rdScript(r, kind, n), genRdOps(r, n, r.Range(1, 24)))
 	}
 	// 3. skip decoder over bufiox: values retained across growth
-	for i := 0; i < 150*scale; i++ {
+	for i := 0; i < 150*scale/div; i++ {
 		stream, types := genValues(r, g, r.Range(1, 12), 3000)
 		if r.Chance(1, 6) && len(stream) > 2 {
 			stream = stream[:r.Intn(len(stream))] // truncated: the last Next fails
@@ -236,7 +246,7 @@ func genC09(o *lib.Opts) {
 		emit("sd", kind, lib.Hex(stream), rdScript(r, kind, len(stream)), strings.Join(ops, ","))
 	}
 	// 4. ReaderSkipDecoder: grow = Malloc, copy, Free(old)
-	for i := 0; i < 150*scale; i++ {
+	for i := 0; i < 150*scale/div; i++ {
 		// (every SkipN inside one Next reallocates and copies: keep the values small, the list-based
 		// model pays for each of those allocations)
 		stream, types := genValues(r, g, r.Range(1, 8), 300)
@@ -261,7 +271,7 @@ func genC09(o *lib.Opts) {
 	}
 	// 5. writer histories
 	wsz := []int{0, 1, 7, 100, 1000, 4000, 4096, 4097, 5000, 9000, 20000}
-	for i := 0; i < 600*scale; i++ {
+	for i := 0; i < 600*scale/div; i++ {
 		kind := "d"
 		if r.Chance(1, 3) {
 			c := r.Pick(0, 1, 8, 100, 4096, 5000, 8192, 10000)
@@ -350,6 +360,13 @@ func genC16(o *lib.Opts) {
 	if o.N > 0 {
 		scale = o.N
 	}
+	div := 1
+	if modeSuffix == "~" {
+		div = 5
+		if o.Tier == "thorough" {
+			scale, div = 4, 1
+		}
+	}
 	modes := func() (string, string) {
 		switch r.Intn(4) {
 		case 0, 1:
@@ -370,7 +387,7 @@ func genC16(o *lib.Opts) {
 		}
 	}
 	// 2. random runs
-	for i := 0; i < 200*scale; i++ {
+	for i := 0; i < 200*scale/div; i++ {
 		mode, sc := modes()
 		var its []string
 		total, n := 0, r.Range(1, 14)
